@@ -150,7 +150,7 @@ func c07ConcSetup(e *c07Env, sc c07ConcScenario, px *Proxy) (solo [2]c07ConcView
 		out := s.Run()
 		if out.Aborted != "" {
 			e.up.Take()
-			return out, [2]c07ConcView{}, out.Aborted
+			return out, [2]c07ConcView{}, concAbortText(out)
 		}
 		v, err := c07ConcViews(e, sc, resps)
 		return out, v, err
@@ -248,6 +248,9 @@ func c07Concurrent(c *Ctx, e *c07Env) {
 			stats := explore.Run(explore.Config{MaxCost: pass.bound, Deadline: c.Deadline, Shard: c.Shard, Shards: c.Shards, ShardDepth: 2, TolerateDivergence: true, MaxDivergences: 16}, func(x *explore.Exec, own bool) {
 				out, v, err := body(x)
 				if !own {
+					return
+				}
+				if concInconclusive(c, err) {
 					return
 				}
 				c.Inc("evaluations")
